@@ -38,11 +38,27 @@ type S3 struct {
 	N     uint16 `json:"n"`
 }
 
+// embedding: Created and ID are promoted from Base; S4 declares its own ID (shadows the promoted one); S5 embeds a pointer, which may be nil
+type Base struct {
+	Created string `json:"created"`
+	ID      int
+	note    string
+}
+type S4 struct {
+	Base
+	Title string `json:"title"`
+	ID    int
+}
+type S5 struct {
+	*Base
+	Title string
+}
+
 type MyStr string
 type MyInt int
 
 var structRegistry = map[string]reflect.Type{
-	"S1": reflect.TypeOf(S1{}), "S2": reflect.TypeOf(S2{}), "S3": reflect.TypeOf(S3{}),
+	"S1": reflect.TypeOf(S1{}), "S2": reflect.TypeOf(S2{}), "S3": reflect.TypeOf(S3{}), "S4": reflect.TypeOf(S4{}), "S5": reflect.TypeOf(S5{}), "Base": reflect.TypeOf(Base{}),
 }
 
 func tagName(f reflect.StructField) string {
@@ -129,6 +145,24 @@ func toValRV(rv reflect.Value) map[string]any {
 				val = unexportedVal(fv)
 			}
 			lst = append(lst, []any{f.Name, tagName(f), f.IsExported(), val})
+		}
+		// fields promoted from embedded structs are reachable by their Go name (reflect.Value.FieldByName), not by their tag (the tag scan
+		// only covers the struct's own fields): they follow the declared fields, marked with the sentinel tag
+		for _, vf := range reflect.VisibleFields(t) {
+			if len(vf.Index) < 2 {
+				continue
+			}
+			fv, err := rv.FieldByIndexErr(vf.Index)
+			if err != nil {
+				continue // through a nil embedded pointer: no such field on this value
+			}
+			var val map[string]any
+			if vf.IsExported() {
+				val = toValRV(fv)
+			} else {
+				val = unexportedVal(fv)
+			}
+			lst = append(lst, []any{vf.Name, "\x01", vf.IsExported(), val}) // tag \x01 = promoted (Vuego.promotedTag in the model)
 		}
 		return map[string]any{"t": "struct", "name": t.Name(), "v": lst}
 	case reflect.Ptr:
